@@ -267,3 +267,52 @@ OUTSIDE = ['more than one Manifest per directory (excluded by the statement)',
            'st_mtime_ns of real files (the model logs every write instead)',
            'the two-equal-entries family (known finding F1 of C03)']
 STUBS = ['ModelFS seams', 'gzip.GzipFile recorder for the header check']
+
+
+def validate(seed, tier):
+    """real filesystem: a second `gemato update` leaves bytes and st_mtime_ns of every
+    Manifest unchanged; with sorting, the bytes do not depend on creation order of files nor
+    on the order of lines in the previous Manifest"""
+    import random
+    from vf.realcheck import RealTree, gemato
+    rnd = random.Random(seed)
+    agree, details, errs = 0, [], []
+    names = ['a', 'b c', 'sub/x', 'sub/y', 'sub/deep/z', 'q\\r']
+    blobs = {n: bytes(rnd.randrange(256) for _ in range(rnd.randrange(0, 40))) for n in names}
+    results = []
+    for k in range(3):
+        t = RealTree()
+        try:
+            order = names[:]
+            rnd.shuffle(order)
+            for n in order:
+                t.write(n, blobs[n])
+            t.write('Manifest', b'')
+            rc, out = gemato('create', '-p', 'ebuild', '-H', 'SHA256 MD5', t.root)
+            if rc != 0:
+                errs.append(f'create failed: {out[-300:]}')
+                continue
+            if k:
+                # shuffle the lines of every plain Manifest, then update with sorting
+                for rel, (data, _) in t.snapshot(True).items():
+                    if not rel.endswith(('.gz', '.bz2', '.xz', '.lzma')):
+                        ls = data.decode().splitlines(True)
+                        rnd.shuffle(ls)
+                        t.write(rel, ''.join(ls).encode())
+            rc, out = gemato('update', '-p', 'ebuild', '-H', 'SHA256 MD5', '-f', t.root)
+            s1 = t.snapshot(True)
+            rc2, out = gemato('update', '-p', 'ebuild', '-H', 'SHA256 MD5', t.root)
+            s2 = t.snapshot(True)
+            if rc or rc2 or s1 != s2:
+                errs.append('second update changed Manifest bytes or mtimes')
+            else:
+                agree += 1
+            results.append({r: d for r, (d, _) in s2.items()})
+        finally:
+            t.close()
+    if len(results) == 3 and results[0] == results[1] == results[2]:
+        agree += 1
+        details.append({'replicas': 3, 'manifests': sorted(results[0])})
+    elif len(results) == 3:
+        errs.append('sorted Manifests differ between creation/line orders')
+    return agree, details, errs
